@@ -141,6 +141,7 @@ CHECKS["C11"] = {
     "jobs": [
         {"pkg": MUX, "run": "^TestVerif_C11_Flips$"},
         {"pkg": MUX, "run": "^TestVerif_C11_Random$", "checks": {"quick": 4000, "thorough": 600000}, "shards": {"thorough": 16}},
+        {"pkg": MUX, "run": "^TestVerif_C11_Concurrent$", "checks": {"quick": 150, "thorough": 10000}, "shards": {"thorough": 8}, "timeout": {"quick": 900}},
         {"pkg": MUX, "run": "^$", "tiers": ["thorough"], "fuzz": {"target": "^FuzzVerifRecvData$", "seconds": {"quick": 0, "thorough": 150}}},
     ],
 }
